@@ -169,4 +169,4 @@ def run(report, findings):
                 "backquoted names, group terms, response) x ~14 patterns over used and unused columns x {drop, error, pass} + refused "
                 "policies; non-trivial = verdict compared with the run on the manually filtered frame",
         "samples": [[c[0], sorted(c[1])] for c in CASES[:4]]})
-    report.assumptions = ["the set of used variables of each pool formula is stated by hand in the pool (independent of formulae's visitor)"]
+    report.assumptions = list(dict.fromkeys(list(report.assumptions) + ["the set of used variables of each pool formula is stated by hand in the pool (independent of formulae's visitor)"]))
